@@ -889,6 +889,16 @@ pub fn explore(scn: &dyn Scenario, cfg: &Config) -> Report {
     // phase 2: workers
     if !jobs.is_empty() && complete {
         // interleave so that neighbouring (similar-cost) subtrees go to different workers
+        // deterministic shuffle (seed): when a budget cap stops the run early, the subtrees that
+        // were explored are a spread sample of the frontier rather than its first entries
+        let mut jobs = jobs;
+        let mut x = cfg.seed.wrapping_mul(0x9E37_79B9_7F4A_7C15) ^ 0xD1B5_4A32_D192_ED03;
+        for i in (1..jobs.len()).rev() {
+            x ^= x << 13;
+            x ^= x >> 7;
+            x ^= x << 17;
+            jobs.swap(i, (x % (i as u64 + 1)) as usize);
+        }
         let queue = Mutex::new(jobs.into_iter().collect::<VecDeque<_>>());
         let reports = Mutex::new(Vec::<Report>::new());
         let all_ok = AtomicBool::new(true);
